@@ -400,6 +400,7 @@ impl AuthorizerBuilder {
             public_key_to_block_id,
             limits: self.limits,
             execution_time: None,
+            exhausted: None,
         })
     }
 }
